@@ -80,6 +80,9 @@ func c10MapZ(edge bool, tz string, z string) *c10Mapping {
 		m.bases[1] = time.Date(1971, 3, 5, 12, 34, 56, 123456789, time.UTC)
 		m.bases[4] = time.Date(2031, 12, 31, 23, 59, 59, 999999999, time.UTC)
 		m.bases[5] = time.Unix(0, influxql.MaxTime).UTC()
+		// instants no time literal can denote (C18: old bounds that can only be stripped, never evaluated)
+		m.bases[-1] = time.Date(1500, 1, 1, 0, 0, 0, 0, time.UTC)
+		m.bases[6] = time.Date(2300, 1, 1, 0, 0, 0, 0, time.UTC)
 	}
 	if tz != "" {
 		// "<zone>@utc0": 8-hour windows around a UTC midnight instead (a bound on a UTC day boundary in a zone that is not UTC)
@@ -197,7 +200,7 @@ func c10Resolve(toks []interface{}, m *c10Mapping) []interface{} {
 		switch f {
 		case "int":
 			out = append(out, c10Tok("int", m.nanos(k, d).String(), g))
-		case "rfc":
+		case "rfc", "rfcfar":
 			out = append(out, c10Tok("str", at.UTC().Format(time.RFC3339Nano), g))
 		case "dt":
 			out = append(out, c10Tok("str", at.In(m.zone).Format("2006-01-02 15:04:05.999999999"), g))
